@@ -102,6 +102,27 @@ def reach : Nat → List CNode → H32 → List H32 → List H32
       if acc.contains h then acc
       else (n.kids.foldl (fun a k => reach fuel m k a) acc) ++ [h]
 
+/-- does a walk down the cached children from `h` run out of `fuel` (a cycle, if fuel exceeds the cache size)? -/
+def tooDeep : Nat → List CNode → H32 → Bool
+  | 0, _, _ => true
+  | fuel + 1, m, h =>
+    match find m h with
+    | none => false
+    | some n => n.kids.any (tooDeep fuel m)
+
+/-- the hypotheses of `db_commit_children_first`, as an executable check of a state: every child of a cached
+node is cached or on disk, and the cached nodes are acyclic through the children relation -/
+def orderedClosed (s : State) : Bool :=
+  s.mem.all (fun n => n.kids.all (fun k => inMem s k || onDisk s k)) &&
+  s.mem.all (fun n => !tooDeep (s.mem.length + 1) s.mem n.hash)
+
+/-- the nodes `Commit(root)` writes, in the order it writes them (children before parents) -/
+def commitOrder (s : State) (h : H32) : List H32 := reach (s.mem.length + 1) s.mem h []
+
+/-- the nodes `Cap(limit)` writes, in order (the flush-list, oldest first) -/
+def capOrder (s : State) (limit : Nat) : List H32 :=
+  (s.mem.take (capCount s.mem (memSize s.mem + s.mem.length * 64) limit)).map (·.hash)
+
 /-- `Commit(root)`: write everything cached below `root`, then `uncache` it -/
 def commit (s : State) (h : H32) : State :=
   let r := reach (s.mem.length + 1) s.mem h []
